@@ -86,7 +86,7 @@ func (cfg *ChainCfg) handlerSees(r *ChainReq) (attrs, ctx, gen, params, sel stri
 }
 
 func runC06(x *Ctx) {
-	k := chainKnobs{maxFilters: 3, maxCF: 7, twoServices: true, warm: true, richFilters: true, encoding: false, panics: 120, wfaults: 60, errors: true, plain: true, nested: false, maxPayload: 300, filterWrites: true}
+	k := chainKnobs{cancels: 80, maxFilters: 3, maxCF: 7, twoServices: true, warm: true, richFilters: true, encoding: false, panics: 120, wfaults: 60, errors: true, plain: true, nested: false, maxPayload: 300, filterWrites: true}
 	maxClients, maxReqs := 4, 3
 	if x.Thorough() {
 		maxClients, maxReqs = 5, 6
